@@ -310,24 +310,31 @@ func doCheck(prop, tier string) int {
 	}
 	merged.Violations = append(merged.Violations, crashViol...)
 	merged.ViolTotal += int64(len(crashViol))
+	merged.FreshTotal += int64(len(crashViol))
 	incon = append(incon, merged.Inconclusive...)
 
-	// split violations into known / new
+	// split violations into known / new (classified by the child at the moment
+	// each violation was recorded; counts are exact even when only a few
+	// violations per finding are kept)
 	knownCount := map[string]int{}
 	knownWitness := map[string]mon.Violation{}
 	var fresh []mon.Violation
+	for k, n := range merged.KnownCounts {
+		knownCount[k] = int(n)
+	}
 	for _, v := range merged.Violations {
 		if v.Known != "" {
-			if knownCount[v.Known] == 0 {
+			if _, ok := knownWitness[v.Known]; !ok {
 				knownWitness[v.Known] = v
 			}
-			knownCount[v.Known]++
+			if knownCount[v.Known] == 0 {
+				knownCount[v.Known] = 1
+			}
 		} else {
 			fresh = append(fresh, v)
 		}
 	}
-	// violations beyond the recorded cap cannot be classified; count them as fresh
-	unclassified := int(merged.ViolTotal) - len(merged.Violations)
+	unclassified := int(merged.FreshTotal) - len(fresh)
 	if unclassified < 0 {
 		unclassified = 0
 	}
@@ -533,7 +540,23 @@ func mergeResults(dst, src *mon.Result, flavour string) {
 		if !seen[violKey(&src.Violations[i])] {
 			dst.Violations = append(dst.Violations, src.Violations[i])
 			dst.ViolTotal++
+			if src.Violations[i].Known == "" {
+				dst.FreshTotal++
+			}
 		}
+	}
+	if dst.KnownCounts == nil {
+		dst.KnownCounts = map[string]int64{}
+	}
+	for k, v := range src.KnownCounts {
+		if flavour == "cover" {
+			// the reduced-scale run repeats a prefix of the same cases
+			if dst.KnownCounts[k] == 0 {
+				dst.KnownCounts[k] = v
+			}
+			continue
+		}
+		dst.KnownCounts[k] += v
 	}
 	for _, s := range src.Inconclusive {
 		dst.Inconclusive = append(dst.Inconclusive, flavour+": "+s)
